@@ -97,6 +97,11 @@ func newCore(config Config, storage *Storage) *core {
 		rand:    rand.New(rand.NewSource(seed)),
 	}
 
+	// A crash between committing a received snapshot and truncating the log
+	// (see coreFollower.handleSnapshot) leaves a log that is not consistent
+	// with the snapshot. Finish that step before anything reads the log.
+	c.reconcileLogWithSnapshot()
+
 	// Initialize the configuration from storage.
 	c.initLatestConf()
 
@@ -118,6 +123,26 @@ func newCore(config Config, storage *Storage) *core {
 	// Start as follower.
 	c.changeState(c.follower, "")
 	return c
+}
+
+// reconcileLogWithSnapshot re-establishes "the snapshot is a prefix of the
+// log" at startup: if the log ends before the last index of the snapshot, or
+// holds a different entry at that index, the whole log is discarded, exactly
+// as handleSnapshot would have done had it not been interrupted.
+func (c *core) reconcileLogWithSnapshot() {
+	meta, _ := c.storage.GetSnapshotMetadata()
+	if meta == NilSnapshotMetadata {
+		return
+	}
+	fi, li, empty := c.storage.log.GetBound()
+	if empty {
+		return
+	}
+	if li < meta.LastIndex || fi > meta.LastIndex+1 ||
+		(fi <= meta.LastIndex && c.storage.log.Term(meta.LastIndex) != meta.LastTerm) {
+		log.Infof("The log [%d, %d] is not consistent with snapshot %s, discard the entire log.", fi, li, meta)
+		c.storage.log.Truncate(0)
+	}
 }
 
 // proposeInitialMembership adds a log entry with an initial configuration (set
